@@ -115,28 +115,56 @@ theorem captures_threaded (cs : List (Nat × Nat)) (vs : List Var) :
 theorem handBack_needs_flag_from_copyability :
     handBack [] [⟨0, false, false⟩] ≠ fnOutputs [] [⟨0, false, false⟩] := by decide
 
-/-- **C25 (control qubits handed back, element level)**: for every block and every control item
-    over individual qubits (any number of them), after the block each control variable names
-    exactly the wire that was taken from it, no variable is dropped or duplicated, and the
-    controls come back in the order of the call outputs (last control first). -/
-theorem control_qubits_returned (controls : List (List Nat)) :
-    handBackElems controls = controls.reverse.map (fun vars => vars.map (fun v => (v, v))) ∧
-      ∀ ps, ps ∈ handBackElems controls → ∀ p, p ∈ ps → p.1 = p.2 := by
-  have hz : ∀ vars : List Nat, unpackAssign vars (packCtrl vars) = vars.map (fun v => (v, v)) := by
-    intro vars
-    unfold unpackAssign packCtrl
-    induction vars with
-    | nil => rfl
-    | cons v vs ih => simp [List.zip_cons_cons, ih]
+/-- **C25 (control qubits handed back, element level)**: take any block with any control items
+    over individual qubits, and let `ret` be *whatever* the modified function returns for a control
+    array (length-preserving, otherwise arbitrary).  Then after the block every control variable
+    names the wire that was taken from it **iff** the function returns each control array
+    element-wise in place.  So the compiler's pack → call → unpack adds no permutation of its own:
+    the only way a control variable can end up on another wire is the callee's doing — and with
+    the in-place semantics of `ControlModifier` (assumed, outside the repository) nothing moves
+    (`control_qubits_returned_in_place`). -/
+theorem control_qubits_returned (ret : List Nat → List Nat) (controls : List (List Nat))
+    (hlen : ∀ vars, vars ∈ controls → (ret (packCtrl vars)).length = vars.length) :
+    (∀ ps, ps ∈ blockHandBack ret controls → ∀ p, p ∈ ps → p.1 = p.2) ↔
+      ∀ vars, vars ∈ controls → ret (packCtrl vars) = vars := by
+  have hzip : ∀ (a b : List Nat), b.length = a.length → ((∀ p, p ∈ a.zip b → p.1 = p.2) ↔ b = a) := by
+    intro a
+    induction a with
+    | nil => intro b hb; cases b <;> simp_all
+    | cons x xs ih =>
+      intro b hb
+      cases b with
+      | nil => simp at hb
+      | cons y ys =>
+        have hl : ys.length = xs.length := by simpa using hb
+        simp only [List.zip_cons_cons, List.mem_cons, forall_eq_or_imp, List.cons.injEq]
+        rw [ih ys hl]
+        constructor
+        · rintro ⟨h1, h2⟩; exact ⟨h1.symm, h2⟩
+        · rintro ⟨h1, h2⟩; exact ⟨h1.symm, h2⟩
+  unfold blockHandBack unpackAssign
   constructor
-  · simp [handBackElems, hz]
-  · intro ps hps p hp
-    simp only [handBackElems, List.mem_map, List.mem_reverse] at hps
-    rcases hps with ⟨vars, _, rfl⟩
-    rw [hz] at hp
-    simp only [List.mem_map] at hp
-    rcases hp with ⟨v, _, rfl⟩
-    rfl
+  · intro h vars hv
+    refine (hzip vars (ret (packCtrl vars)) (hlen vars hv)).mp ?_
+    exact h _ (List.mem_map.mpr ⟨vars, List.mem_reverse.mpr hv, rfl⟩)
+  · intro h ps hps
+    simp only [List.mem_map, List.mem_reverse] at hps
+    rcases hps with ⟨vars, hv, rfl⟩
+    exact (hzip vars (ret (packCtrl vars)) (hlen vars hv)).mpr (h vars hv)
+
+/-- the instance for the assumed in-place semantics, in the form the driver evaluates -/
+theorem control_qubits_returned_in_place (controls : List (List Nat)) :
+    handBackElems controls = blockHandBack id controls ∧
+      ∀ ps, ps ∈ handBackElems controls → ∀ p, p ∈ ps → p.1 = p.2 := by
+  refine ⟨rfl, ?_⟩
+  exact (control_qubits_returned id controls (fun _ _ => rfl)).mpr (fun _ _ => rfl)
+
+/-- non-vacuity: a callee that swaps the two qubits of `control(c, d)` is detected by the iff -/
+example : ¬ ∀ ps, ps ∈ blockHandBack List.reverse [[3, 5]] → ∀ p, p ∈ ps → p.1 = p.2 := by
+  intro h
+  have := (control_qubits_returned List.reverse [[3, 5]] (by intro v hv; simp [packCtrl])).mp h [3, 5] (by simp)
+  simp [packCtrl] at this
+example : blockHandBack id [[3, 5], [7]] = [[(7, 7)], [(3, 3), (5, 5)]] := by decide
 
 /-- handing the unpacked qubits back from the END of the list (seeded change C25/m6) swaps the
     variables as soon as a control lists two distinct qubits: the first variable ends up naming
